@@ -68,11 +68,15 @@ def selftest(pid, rep):
     for x in res:
         summ[x["status"]] = summ.get(x["status"], 0) + 1
     rep.extra["selftest"] = {"mutants": len(res), "summary": summ, "survivors": [x["name"] for x in res if x["status"] in ("SURVIVED", "partly")],
-                             "skipped": [x["name"] for x in res if x["status"] == "skipped"], "killed": [x["name"] for x in res if x["status"] == "killed"]}
+                             "skipped": [x["name"] for x in res if x["status"] == "skipped"], "killed": [x["name"] for x in res if x["status"] == "killed"],
+                             "behaviour_preserving_refactors_silent": [x["name"] for x in res if x["status"] == "silent"],
+                             "false_alarms": [x["name"] for x in res if x["status"] == "FALSE-ALARM"]}
     print("   self-test: %d mutants %s" % (len(res), summ))
     for x in res:
         if x["status"] in ("SURVIVED", "partly", "error"):
             print("   SELFTEST-SURVIVOR %s: %s" % (x["name"], x["detail"]))
+        if x["status"] == "FALSE-ALARM":
+            print("   SELFTEST-FALSE-ALARM %s: %s" % (x["name"], x["detail"]))
 
 
 def main():
